@@ -85,6 +85,13 @@ type Sched struct {
 	deadlock string
 	// unrepresentable: the schedule reached a state M1 cannot continue faithfully
 	unrepresentable bool
+	// Forced, when non-nil, dictates the first len(Forced) decisions (index into
+	// the role-sorted enabled set); afterwards index 0 is taken.  Choices
+	// records, for every decision, how many goroutines were enabled and which
+	// index was taken - the basis of the exhaustive depth-first exploration.
+	Forced     []int
+	Systematic bool
+	Choices    [][2]int
 }
 
 func goid() int64 {
@@ -415,7 +422,17 @@ func (s *Sched) Run(expected int) {
 			return
 		}
 		var pick *gstate
-		if s.pct {
+		if s.Systematic {
+			k := 0
+			if len(s.Choices) < len(s.Forced) {
+				k = s.Forced[len(s.Choices)]
+				if k >= len(cands) {
+					k = len(cands) - 1
+				}
+			}
+			s.Choices = append(s.Choices, [2]int{len(cands), k})
+			pick = cands[k]
+		} else if s.pct {
 			if s.changes[s.step] {
 				// demote the currently highest goroutine
 				best := cands[0]
